@@ -281,28 +281,25 @@ Hypothesis HRem : RemoveOK k.
 Hypothesis HClr : ClearOK k.
 Hypothesis HFind : FindOK k.
 
-Definition lassign_f (side : bool) :=
-  fun (acc : heap * hdr * nat * nat * list event) (e : node) =>
-    let '(H1, h1, ser1, nid1, ev1) := acc in
-    let '(H2, h2, ser2, nid2, ev2) := l_insert k (PEnd side) (n_key e) (n_val e) H1 h1 ser1 nid1 in
-    (H2, h2, ser2, nid2, ev1 ++ ev2).
-
-Lemma assign_fold_refine side o src : forall c1 H1 h1 ser1 nid1 ev1 c' ser' nid' ev',
+Lemma ins_fold_refine side o off src : forall c1 H1 h1 ser1 nid1 ev1 c' ser' nid' ev',
   CInv k c1 o ser1 nid1 -> CRep side H1 h1 c1 -> (forall x, (ser1 <= fst x)%nat -> hget H1 x = cell0) ->
-  fold_left (assign_fold k) src (c1, ser1, nid1, ev1) = (c', ser', nid', ev') ->
+  fold_left (ins_fold k off) src (c1, ser1, nid1, ev1) = (c', ser', nid', ev') ->
   CInv k c' o ser' nid' /\ (ser1 <= ser')%nat /\ (nid1 <= nid')%nat /\
   (forall x, In x (cfoot c') -> In x (cfoot c1) \/ (ser1 <= fst x < ser')%nat) /\
-  exists H' h', fold_left (lassign_f side) src (H1, h1, ser1, nid1, ev1) = (H', h', ser', nid', ev') /\
+  exists H' h', fold_left (lins_f k side off) src (H1, h1, ser1, nid1, ev1) = (H', h', ser', nid', ev') /\
                 CRep side H' h' c' /\ Contract H1 c1 ser1 ser' H' c'.
 Proof.
   induction src as [|e src IH]; intros c1 H1 h1 ser1 nid1 ev1 c' ser' nid' ev' Ci R Hfr E; cbn [fold_left] in *.
   - injection E as <- <- <- <-. split; [exact Ci|]. split; [lia|]. split; [lia|]. split; [auto|].
     exists H1, h1. split; [reflexivity|]. split; [exact R|]. split; [auto|]. intros x Hx.
     destruct (in_dec sdec x (slots (elems c1))); auto.
-  - unfold assign_fold at 2 in E.
-    destruct (c_insert k (length (elems c1)) (n_key e) (n_val e) c1 ser1 nid1) as [[[c2 ser2] nid2] ev2] eqn:Ei.
-    assert (Hpos : pos_ok side H1 h1 (elems c1) (if is_pool k && negb (is_hashk k) then length (elems c1) else length (elems c1)) (PEnd side)).
-    { destruct (is_pool k && negb (is_hashk k)); apply pos_ok_end; auto; apply R. }
+  - unfold ins_fold at 2 in E.
+    destruct (c_insert k (ins_pos off c1) (n_key e) (n_val e) c1 ser1 nid1) as [[[c2 ser2] nid2] ev2] eqn:Ei.
+    assert (Hpos : pos_ok side H1 h1 (elems c1) (if is_pool k && negb (is_hashk k) then length (elems c1) else ins_pos off c1)
+                          (l_ins_ptr k side off H1 h1)).
+    { destruct off as [[p n0]|]; cbn [ins_pos l_ins_ptr].
+      - rewrite (cr_size _ _ _ _ R). destruct (is_pool k && negb (is_hashk k)); [apply pos_ok_end; auto; apply R|apply pos_ok_iter; apply R].
+      - destruct (is_pool k && negb (is_hashk k)); apply pos_ok_end; auto; apply R. }
     destruct (HIns side H1 h1 c1 o ser1 nid1 _ _ _ _ _ _ _ _ Ci R Hfr Hpos Ei) as (Ci2 & Ls & Ln & Hf2 & H2 & h2 & El & R2 & C2).
     assert (Hfr2 : forall x, (ser2 <= fst x)%nat -> hget H2 x = cell0).
     { intros x Hx. destruct C2 as (F2 & _). rewrite F2; [apply Hfr; lia| |lia]. intro Hin. apply (foot_lt _ _ _ _ _ _ Ci) in Hin. lia. }
@@ -310,8 +307,29 @@ Proof.
     split; [exact Ci'|]. split; [lia|]. split; [lia|]. split.
     { intros x Hx. destruct (Hf' x Hx) as [Hin|Hr]; [|right; lia]. destruct (Hf2 x Hin) as [Hin2|Hr]; [auto|right; lia]. }
     exists H', h'. split.
-    { unfold lassign_f at 2. rewrite El. exact Ef. }
+    { unfold lins_f at 2. rewrite El. exact Ef. }
     split; [exact R'|]. eapply Contract_trans; eauto.
+Qed.
+
+Lemma rem_fold_refine side o ser nid src : forall c1 H1 h1 ev1 c' ev',
+  CInv k c1 o ser nid -> CRep side H1 h1 c1 ->
+  fold_left (rem_fold k) src (c1, ev1) = (c', ev') ->
+  CInv k c' o ser nid /\ (forall x, In x (cfoot c') -> In x (cfoot c1)) /\
+  exists H' h', fold_left (lrem_f k) src (H1, h1, ev1) = (H', h', ev') /\ CRep side H' h' c' /\ Contract H1 c1 ser ser H' c'.
+Proof.
+  induction src as [|e src IH]; intros c1 H1 h1 ev1 c' ev' Ci R E; cbn [fold_left] in *.
+  - injection E as <- <-. split; [exact Ci|]. split; [auto|].
+    exists H1, h1. split; [reflexivity|]. split; [exact R|]. split; [auto|]. intros x Hx.
+    destruct (in_dec sdec x (slots (elems c1))); auto.
+  - unfold rem_fold at 2 in E. unfold lrem_f at 2.
+    pose proof (HFind _ _ _ _ _ _ _ (n_key e) Ci R) as Hf. destruct (find_pos k (n_key e) c1) as [i|].
+    + destruct Hf as (nd & En & Ef). rewrite Ef.
+      destruct (c_remove_at i c1) as [c2 ev2] eqn:Er.
+      destruct (HRem _ _ _ _ _ _ _ _ _ _ _ Ci R En Er) as (Ci2 & Hf2 & H2 & h2 & El & R2 & C2). rewrite El.
+      destruct (IH c2 H2 h2 (ev1 ++ ev2) c' ev' Ci2 R2 E) as (Ci' & Hf' & H' & h' & Efold & R' & C').
+      split; [exact Ci'|]. split; [auto|]. exists H', h'. split; [exact Efold|]. split; [exact R'|].
+      eapply Contract_trans; eauto; intros x Hx; left; auto.
+    + rewrite Hf. apply IH; auto.
 Qed.
 
 Lemma assign_refine side H h c o ser nid src c' ser' nid' ev :
@@ -324,7 +342,7 @@ Proof.
   destruct (HClr side H h c o ser nid c0 ev0 Ci R Ec) as (Ci0 & Hf0 & H0 & h0 & El0 & R0 & C0).
   assert (Hfr0 : forall x, (ser <= fst x)%nat -> hget H0 x = cell0).
   { intros x Hx. destruct C0 as (F0 & _). rewrite F0; [apply Hfr; lia| |lia]. intro Hin. apply (foot_lt _ _ _ _ _ _ Ci) in Hin. lia. }
-  destruct (assign_fold_refine side o src c0 H0 h0 ser nid ev0 c' ser' nid' ev Ci0 R0 Hfr0 E) as (Ci' & Ls & _ & Hf' & H' & h' & Ef & R' & C').
+  destruct (ins_fold_refine side o None src c0 H0 h0 ser nid ev0 c' ser' nid' ev Ci0 R0 Hfr0 E) as (Ci' & Ls & _ & Hf' & H' & h' & Ef & R' & C').
   split; [exact Ci'|]. split; [exact Ls|]. exists H', h'. split.
   { unfold l_assign. rewrite El0. exact Ef. }
   split; [exact R'|]. eapply Contract_trans; eauto; intros x Hx; left; auto.
@@ -379,7 +397,7 @@ Theorem step_refine cap L S o :
 Proof.
   intros R. destruct (Rep_sel _ _ _ R) as (Rs & Ro & Ci).
   pose proof (rp_cur _ _ _ R) as Ecur. pose proof (cr_size _ _ _ _ Rs) as Esz. pose proof (cr_dll _ _ _ _ Rs) as Dl.
-  unfold lstep, step. rewrite Ecur. fold (lsel L). destruct o as [b|key v|key v|pos key v|pos| | |key| | | | ].
+  unfold lstep, step. rewrite Ecur. fold (lsel L). destruct o as [b|key v|key v|pos key v|pos| | |key| | | | |ipos| |hpos key v].
   - (* sel *) cbn [fst snd]. split; [|reflexivity]. destruct R as [Ra Rb Rc Rser Rnid Robj Rfresh Ri].
     constructor; cbn [l_heap l_a l_b l_cur l_ser l_nid s_a s_b s_cur s_ser s_nid]; auto.
   - (* app *)
@@ -457,6 +475,22 @@ Proof.
     destruct (destroy_refine k _ cap _ _ _ (s_ser S) Hk Hsh Rs _ _ Ed) as (H' & h' & El & R' & C'). rewrite El. cbn [fst snd].
     rewrite (rp_ser _ _ _ R), (rp_nid _ _ _ R). split; [|reflexivity]. eapply Rep_update; eauto.
     unfold c_destroy in Ed. injection Ed as <- _. eapply CInv_destroy; eauto.
+  - (* insert all the elements of the other container *)
+    destruct (has_insall k); [|cbn [fst snd]; auto].
+    assert (Esrc : lelems (l_heap L) (lother L) = elems (other S)) by (eapply lelems_rep; eauto). rewrite Esrc.
+    destruct (c_insert_all k ipos (elems (other S)) (sel S) (s_ser S) (s_nid S)) as [[[c' ser'] nid'] ev] eqn:Ea.
+    unfold c_insert_all, insall_off in Ea. unfold l_insert_all. rewrite Esz.
+    destruct (ins_fold_refine _ _ _ _ _ _ _ _ _ _ _ _ _ _ Ci Rs (rp_fresh _ _ _ R) Ea) as (Ci' & Ls & _ & _ & H' & h' & El & R' & C').
+    rewrite (rp_ser _ _ _ R), (rp_nid _ _ _ R), El. cbn [fst snd]. split; [|reflexivity]. eapply Rep_update; eauto.
+  - (* remove every key of the other container *)
+    destruct (has_remall k); [|cbn [fst snd]; auto].
+    assert (Esrc : lelems (l_heap L) (lother L) = elems (other S)) by (eapply lelems_rep; eauto). rewrite Esrc.
+    destruct (c_remove_all k (elems (other S)) (sel S)) as [c' ev] eqn:Er.
+    unfold c_remove_all in Er. unfold l_remove_all.
+    destruct (rem_fold_refine _ _ _ _ _ _ _ _ _ _ _ Ci Rs Er) as (Ci' & _ & H' & h' & El & R' & C').
+    rewrite El. cbn [fst snd]. rewrite (rp_ser _ _ _ R), (rp_nid _ _ _ R). split; [|reflexivity]. eapply Rep_update; eauto.
+  - (* hint: not an operation of these kinds *)
+    assert (Hh : has_hint k = false) by (destruct k; try discriminate Hk; reflexivity). rewrite Hh. cbn [fst snd]. auto.
 Qed.
 
 Theorem run_refine cap ops : forall L S, Rep k L S -> Rep k (lrun k cap L ops) (run k cap S ops).
